@@ -10,6 +10,10 @@ use unicode_width::UnicodeWidthChar;
 use vutil::{Collector, Local, Rng};
 
 pub const ALPHABET: [&str; 6] = ["\n", "\r", "\t", "a", "中", "ß"];
+/// Other controls (NUL, ESC, DEL), a narrow 2-byte letter, a 4-byte wide character. Zero-width
+/// characters are left out on purpose: they have no display cell, so the statement ("the markers
+/// point at the display cells of exactly those characters") says nothing about them.
+pub const ALPHABET_EDGE: [&str; 6] = ["\n", "\u{0}", "\u{1b}", "\u{7f}", "é", "😀"];
 
 #[derive(Clone, Copy, Debug)]
 pub enum Subject {
@@ -158,8 +162,11 @@ pub fn judge_with(input: &str, subject: Subject, out: &str, emulate_line_start: 
             let first_char = input[a..].chars().next().unwrap();
             let last_char = input[..b].chars().next_back().unwrap();
             let lc_end = cells(&input[lines[l].0..b]);
+            // a zero-width character (combining mark) occupies no cell of its own: a marker at the
+            // cell where it is attached points at it
             let lw = picture(last_char).width_cjk().unwrap_or(0);
-            (f, l, (fc, fc + picture(first_char).width_cjk().unwrap_or(0)), (lc_end - lw, lc_end), false, false)
+            let fw = picture(first_char).width_cjk().unwrap_or(0);
+            (f, l, (fc, fc + fw.max(1)), (lc_end - lw, (lc_end - lw) + lw.max(1)), false, false)
         }
         Subject::Span(a, _) | Subject::Pos(a) => {
             let f = if a == len { lines.len() - 1 } else { line_index(&lines, a) };
@@ -380,17 +387,19 @@ pub fn run(col: &Collector, thorough: bool, seed: u64, jobs: usize) -> Value {
     vutil::run_workers(jobs, col, |w, n| {
         let mut l = Local::new();
         let mut s = String::new();
-        for len in 0..=max_len {
-            let total = vutil::pow(k, len);
-            let mut idx = w as u64;
-            while idx < total {
-                vutil::nth_string(&ALPHABET, len, idx, &mut s);
-                check_all(&mut l, &s, "exhaustive");
-                l.count("strings");
-                if idx % 2003 == 5 {
-                    l.sample(json!({"input": s, "subjects": "every position and every span on char boundaries"}));
+        for (alphabet, limit, class) in [(&ALPHABET, max_len, "exhaustive"), (&ALPHABET_EDGE, max_len.saturating_sub(1), "exhaustive-edge-alphabet")] {
+            for len in 0..=limit {
+                let total = vutil::pow(k, len);
+                let mut idx = w as u64;
+                while idx < total {
+                    vutil::nth_string(alphabet, len, idx, &mut s);
+                    check_all(&mut l, &s, class);
+                    l.count("strings");
+                    if idx % 2003 == 5 {
+                        l.sample(json!({"input": s, "subjects": "every position and every span on char boundaries", "class": class}));
+                    }
+                    idx += n as u64;
                 }
-                idx += n as u64;
             }
         }
         // many-line inputs: more than five lines (elision) and more than nine (two-digit numbers)
